@@ -41,7 +41,7 @@ def check_doc(case) -> Result:
     feat = case.get("feat", [])
     r.classes = tuple(feat)
     # what the source looks like without any clip: tells whether clipping removed something
-    stats = rendercmp.compare(src, out, r, what=("stack", "rgba"), strokes=False, gradients=False)
+    stats = rendercmp.compare(src, out, r, what=("stack", "rgba"), strokes=False, gradients=False, attribute=not case.get("pinned"))
     if stats and not r.rejected:
         uses_clip = any(f.startswith("clip-on-") for f in feat)
         r.nontrivial = bool(uses_clip and stats["trusted"] >= 20 and stats["covered"] >= 3)
